@@ -2,6 +2,8 @@
 """Print the sub-agent prompt for seeding a property-breaking change (only the property text + a worktree)."""
 import json, sys
 pid, wt = sys.argv[1], sys.argv[2]
+focus = sys.argv[3] if len(sys.argv) > 3 else ''
+FOCUS = {'': '', 'history': ' At least ONE of the two changes must only manifest through a multi-step sequence of operations on the same live objects (re-use after a parameter/setting change, second call on a different grid, re-load, re-compile, cache re-use) or through two cooperating edits in different functions that each look harmless alone; the other should need an unusual-but-legal input (boundary value, degenerate size, unsorted/duplicated/tied data, extreme magnitude, rarely used option).'}[focus]
 p = [json.loads(l) for l in open('/verif/properties.jsonl') if json.loads(l)['id'] == pid][0]
 print(f"""You are helping test a verification effort by seeding a realistic defect into a Python code base.
 
@@ -17,7 +19,7 @@ WHY THE EXISTING TESTS CANNOT SETTLE IT: {p['why_tests_cant']}
 
 CODE ANCHORS: files {', '.join(p['anchors']['files'])}; mechanisms: {'; '.join(m['name']+' ('+m['where']+')' for m in p['anchors']['mechanism'])}
 
-YOUR TASK: produce TWO independent, different changes (mutations) to the library source under {wt}/taurex, each of which BREAKS this property while the code still imports and the existing test suite still passes. Each must be realistic (the kind of slip a maintainer could make in a refactor or optimisation: an off-by-one, a wrong index/side/comparison, a dropped factor, a stale cache, a missed sort, mishandled edge case) and should need something SPECIFIC to manifest — an unusual but legal input, a particular multi-step sequence of operations, a specific configuration, two cooperating sites that each look fine alone — rather than being exposed at once by any ordinary use. Do not make changes that crash on every call. The two changes should be in different mechanisms/places if possible.
+YOUR TASK: produce TWO independent, different changes (mutations) to the library source under {wt}/taurex, each of which BREAKS this property while the code still imports and the existing test suite still passes. Each must be realistic (the kind of slip a maintainer could make in a refactor or optimisation: an off-by-one, a wrong index/side/comparison, a dropped factor, a stale cache, a missed sort, mishandled edge case) and should need something SPECIFIC to manifest — an unusual but legal input, a particular multi-step sequence of operations, a specific configuration, two cooperating sites that each look fine alone — rather than being exposed at once by any ordinary use. Do not make changes that crash on every call. The two changes should be in different mechanisms/places if possible.{FOCUS}
 
 For each change i in (1, 2) deliver, in {wt}/seed_out/m<i>/ :
   - patch.diff : `git diff` of the change against the worktree HEAD (only files under taurex/), applying cleanly with `git apply` at HEAD;
